@@ -1061,7 +1061,10 @@ func (c *Conn) handleBdat(arg string) {
 		}()
 	}
 
+	// The chunk is not made of lines: what has been read of it so far does
+	// not count either.
 	c.lineLimitReader.LineLimit = 0
+	c.lineLimitReader.curLineLength = 0
 
 	chunk := io.LimitReader(c.text.R, int64(size))
 	n, err := io.Copy(c.bdatPipe, chunk)
@@ -1120,6 +1123,7 @@ func (c *Conn) handleBdat(arg string) {
 // discardChunk reads and drops a BDAT chunk that is not passed to the backend.
 func (c *Conn) discardChunk(size uint64) {
 	c.lineLimitReader.LineLimit = 0
+	c.lineLimitReader.curLineLength = 0
 	io.Copy(ioutil.Discard, io.LimitReader(c.text.R, int64(size)))
 	c.lineLimitReader.LineLimit = c.server.MaxLineLength
 }
